@@ -1281,7 +1281,8 @@ result_t NumberDataType::parseInput(const string inputStr, unsigned int* parsedV
           while (isspace(*first)) {
             first++;
           }
-          unsigned long long unsignedValue = strtoull(str, &strEnd, 0);
+          // decimal digit types (BCD, HCD, PIN) print leading zeros: no octal interpretation
+          unsigned long long unsignedValue = strtoull(str, &strEnd, hasFlag(BCD) ? 10 : 0);
           if (errno == ERANGE || (*first == '-' && unsignedValue != 0) || unsignedValue >= (1ULL << m_bitCount)) {
             return RESULT_ERR_OUT_OF_RANGE;  // value out of range (strtoull negates values with leading minus)
           }
